@@ -389,11 +389,32 @@ func registerIntrinsics(e *Engine) {
 		x.stubRet[name] = res
 		return nil
 	})
+	reg("vDocument", func(x *Exec, a []Value) Value {
+		dt := x.eng.findType("github.com/go-openapi/loads", "Document")
+		if dt == nil {
+			panic(unsupported("loads.Document not in program"))
+		}
+		st := dt.Underlying().(*types.Struct)
+		sv := zeroValue(dt).(*StructVal)
+		nf := &StructVal{F: append([]Value{}, sv.F...)}
+		newFn := x.eng.findFunc("github.com/go-openapi/analysis", "New")
+		for i := 0; i < st.NumFields(); i++ {
+			switch st.Field(i).Name() {
+			case "spec", "origSpec":
+				nf.F[i] = a[0]
+			case "Analyzer":
+				nf.F[i] = x.callFunction(newFn, []Value{a[0]}, nil)
+			}
+		}
+		return mkPtr(&Cell{V: nf})
+	})
 	reg("vCallLog", func(x *Exec, a []Value) Value { return mkStrSlice(x.calllog) })
 
 	registerLibModels(e)
 	registerStringModels(e)
 	registerRegexpModels(e)
+	registerBytealg(e)
+	registerSpecModel(e)
 }
 
 // ---------------------------------------------------------------------------
@@ -694,6 +715,27 @@ func registerLibModels(e *Engine) {
 
 	always("github.com/Masterminds/sprig/v3.TxtFuncMap", func(x *Exec, a []Value) Value {
 		return &MapVal{M: &MapObj{KeyT: types.Typ[types.String]}}
+	})
+	always("github.com/kr/pretty.Sprint", func(x *Exec, a []Value) Value { return mkStr("") })
+	always("encoding/gob.Register", func(x *Exec, a []Value) Value { return nil })
+	always("github.com/go-openapi/swag.IsZero", func(x *Exec, a []Value) Value {
+		iv := a[0].(*IfaceVal)
+		if iv.T == nil {
+			return TTrue
+		}
+		switch t := iv.V.(type) {
+		case *Term:
+			return tEq(t, zeroOfSort(t.S))
+		case *StrVal:
+			return strEq(t, mkStr(""))
+		case *PtrVal:
+			return t.Nil
+		case *SliceVal:
+			return mkBool(t.Len == 0)
+		case *MapVal:
+			return mkBool(t.M == nil || len(t.M.E) == 0)
+		}
+		panic(unsupported("swag.IsZero on " + iv.T.String()))
 	})
 	always("os.Getenv", func(x *Exec, a []Value) Value { return mkStr("") })
 	always("log.New", func(x *Exec, a []Value) Value { return nilPtr })
